@@ -21,6 +21,9 @@ pub enum ConnKind {
     /// reverse HTTP: the side that opened the connection sends a response-shaped message and the other side a
     /// request-shaped one (callback / reverse-proxy tunnels; also what a capture with client and server confused shows)
     Http1Reversed,
+    /// the side that ACCEPTED the TCP connection is the TLS client (active-mode data connections, callbacks,
+    /// reverse tunnels): the ClientHello travels against the direction of the SYN
+    TlsReversed,
 }
 
 #[derive(Clone, Debug, Serialize, Deserialize)]
@@ -119,7 +122,8 @@ pub fn build(r: &mut Rng, kind: ConnKind, client: Endpoint, server: Endpoint, o:
             if r.chance(1, 16) {
                 spec.exact_body = Some(*r.pick(&[16383usize, 16384, 16385, 16639, 16640, 16641, 255, 256, 65535 - 5]));
             }
-            let mut c = tls::client_hello(r, &spec);
+            // one hello in sixteen is the smallest a parser accepts (47..50 bytes)
+            let mut c = if r.chance(1, 16) { tls::tiny_hello(r) } else { tls::client_hello(r, &spec) };
             if !o.tls_single_segment {
                 let ok = c.len() <= 16000;
                 c.extend_from_slice(&tls::trailing_opt(r, ok));
@@ -169,6 +173,11 @@ pub fn build(r: &mut Rng, kind: ConnKind, client: Endpoint, server: Endpoint, o:
             let c = tls::client_hello(r, &spec);
             let s = http1::response(r, 100).bytes;
             (c, s)
+        }
+        ConnKind::TlsReversed => {
+            let mut spec = tls::random_spec(r, if o.tls_single_segment { 1200 } else { 4000 });
+            spec.target_len = spec.target_len.min(if o.tls_single_segment { 1200 } else { 4000 });
+            (tls::non_hello_handshake(r), tls::client_hello(r, &spec))
         }
         ConnKind::Http1Reversed => {
             let (rq, rs) = (http1::request(r, 200), http1::response(r, 300));
